@@ -81,3 +81,17 @@ def c17_bounded():
     for mm in re.finditer(r"^C17-FAIL (\S+) (.*)$", out, re.M):
         fails[mm.group(1)] = mm.group(2)
     return int(m.group(1)), fails
+
+
+C13_CLAUSES = ["runs_to_the_exit_address_and_reports_success", "one_sync_per_multiple_of_2000000", "kth_sync_text_carries_the_total_that_passed_the_kth_multiple", "bus_sees_the_same_total", "identical_for_every_run_of_the_same_program", "failing_instruction_makes_run_return_the_error"]
+
+
+def c13_bounded():
+    out = _run({"KOGE29_C13": "1"}, test="native_c13_bounded")
+    m = re.search(r"^C13-BOUNDED programs=(\d+) failures=(\d+)", out, re.M)
+    if not m:
+        return None, out[-2000:]
+    fails = {}
+    for mm in re.finditer(r"^C13-FAIL (\S+) (.*)$", out, re.M):
+        fails[mm.group(1)] = mm.group(2)
+    return int(m.group(1)), fails
